@@ -1,9 +1,9 @@
 package props
 
 import (
-	"bytes"
 	"context"
 	"fmt"
+	"google.golang.org/protobuf/proto"
 	"strings"
 	"sync"
 	"testing"
@@ -48,6 +48,7 @@ type c18Conn struct {
 	key      string
 	mu       sync.Mutex
 	got      []uint64
+	changed  []uint64 // ids whose envelope did not arrive as it was fed
 	paused   bool
 	resume   chan struct{}
 	readErr  error
@@ -115,6 +116,9 @@ func execC18(t *testing.T, c C18Case) (v Verdict) {
 					mu.Unlock()
 				}
 				cn.got = append(cn.got, r.GetId())
+				if !proto.Equal(r, c18Env(r.GetId(), cn.key, "srv")) {
+					cn.changed = append(cn.changed, r.GetId())
+				}
 				cn.mu.Unlock()
 			}
 		}
@@ -181,7 +185,7 @@ func execC18(t *testing.T, c C18Case) (v Verdict) {
 			switch op.Op {
 			case "feed":
 				tok++
-				_ = shared.A.Write(bg, &goat.Rpc{Id: tok, Header: &goatorepo.RequestHeader{Method: "/x/y", Source: k, Destination: "srv"}, Body: &goatorepo.Body{Data: []byte{byte(tok)}}})
+				_ = shared.A.Write(bg, c18Env(tok, k, "srv"))
 				if stopped {
 					break
 				}
@@ -238,7 +242,7 @@ func execC18(t *testing.T, c C18Case) (v Verdict) {
 				go func() {
 					ctx, cancel := context.WithTimeout(bg, time.Hour)
 					defer cancel()
-					done <- cn.rw.Write(ctx, &goat.Rpc{Id: id, Header: &goatorepo.RequestHeader{Method: "/x/y", Source: "srv", Destination: k}, Body: &goatorepo.Body{Data: []byte{byte(id), 0x18}}})
+					done <- cn.rw.Write(ctx, c18Env(id, "srv", k))
 				}()
 				kit.Settle()
 				select {
@@ -387,14 +391,17 @@ func execC18(t *testing.T, c C18Case) (v Verdict) {
 			if cn.key == "" && len(cn.got) > 0 {
 				v.failf("a connection received envelopes without a key")
 			}
+			if len(cn.changed) > 0 {
+				v.failf("envelopes %v were changed between the shared transport and logical connection %s", cn.changed, cn.key)
+			}
 			cn.mu.Unlock()
 		}
 		// writes appear unchanged, in order, on the shared transport
 		var out []uint64
 		for _, r := range shared.A.ReadAvailable() {
 			out = append(out, r.GetId())
-			if !bytes.Equal(r.GetBody().GetData(), []byte{byte(r.GetId()), 0x18}) || r.GetHeader().GetSource() != "srv" {
-				v.failf("envelope %d written on a logical connection was changed on the shared transport", r.GetId())
+			if !proto.Equal(r, c18Env(r.GetId(), "srv", r.GetHeader().GetDestination())) {
+				v.failf("envelope %d written on a logical connection was changed on the shared transport: %s", r.GetId(), truncStr(r.String()))
 			}
 		}
 		if fmt.Sprint(out) != fmt.Sprint(wrote) {
@@ -894,4 +901,24 @@ func execC18WriteFault(t *testing.T, c C18WriteFault) (v Verdict) {
 
 func TestC18WriteFault(t *testing.T) {
 	checkProp(t, "C18", "writefault", genC18WriteFault, execC18WriteFault)
+}
+
+// c18Env is the envelope with the given id: which sub-messages it carries is a function of the id, so that every
+// combination (status, trailer, reset, header metadata) passes through the demultiplexer in both directions.
+func c18Env(id uint64, src, dst string) *goat.Rpc {
+	r := &goat.Rpc{Id: id, Header: &goatorepo.RequestHeader{Method: "/x/y", Source: src, Destination: dst}, Body: &goatorepo.Body{Data: []byte{byte(id), 0x18}}}
+	if id%2 == 1 {
+		r.Status = &goatorepo.ResponseStatus{Code: int32(id % 17), Message: fmt.Sprintf("st%d", id)}
+	}
+	if id%3 == 0 {
+		r.Trailer = &goatorepo.Trailer{Metadata: []*goatorepo.KeyValue{{Key: "t", Value: fmt.Sprint(id)}}}
+	}
+	if id%5 == 0 {
+		r.Reset_ = &goatorepo.Reset{Type: "RST_STREAM"}
+	}
+	if id%7 == 0 {
+		r.Header.Headers = []*goatorepo.KeyValue{{Key: "h", Value: "v"}, {Key: "h", Value: "w"}}
+		r.Body = nil
+	}
+	return r
 }
